@@ -4,7 +4,7 @@
 #include "erasure_code.h"
 
 static long nfail;
-#define NM 255
+#define NM 520
 
 /* run the real gf_invert_matrix on a copy; oracle: success <=> full rank, and original x result == I */
 static void inv_case(const uint8_t *m, int n, const char *family, uint64_t idx)
@@ -363,12 +363,12 @@ int main(int argc, char **argv)
 			pi++;
 		} while (next_perm(p, n));
 	}
-	/* rank-deficient by construction and random-looking full matrices, n <= 32 and 64, 128 */
+	/* rank-deficient by construction and random-looking full matrices, n <= 32 and 64, 128, 256, 512 */
 	for (int n = 2; n <= NM; n = n < 32 ? n + 1 : n * 2) {
-		for (int variant = 0; variant < 8; variant++) {
+		for (int variant = 0; variant < (n > 128 && !v_thorough ? 2 : 8); variant++) {
 			if (!v_mine(unit++))
 				continue;
-			uint8_t base[NM * NM];
+			static uint8_t base[NM * NM];
 			fill_xorshift(base, n * n, n * 100 + variant);
 			inv_case(base, n, "dense-xorshift", variant);
 			memcpy(m, base, n * n);
@@ -396,15 +396,16 @@ int main(int argc, char **argv)
 			inv_case(m, n, "identity-perturbation", variant);
 		}
 	}
-	/* ---- wide matrices (n up to 255, the largest the API's char-sized dimensions allow): every cyclic shift as a scaled permutation
+	/* ---- wide matrices (every n up to 255 in steps, then 256, 257, 300, 520 with shifts 1, 255, 256, 257, n-1): every cyclic shift as a scaled permutation
 	 * (the pivot of step i then sits exactly n - s rows below the diagonal: every search distance 1..n-1 occurs), plus dense and
 	 * rank-deficient ones ---- */
 	{
-		static const int wn[] = { 129, 130, 160, 200, 255 };
+		/* n is an int: 256, 257, 300 and 520 are beyond every code matrix (m <= 256) but inside the function's contract */
+		static const int wn[] = { 129, 130, 160, 200, 255, 256, 257, 300, 520 };
 		static uint8_t wm[NM * NM];
-		for (int wi = 0; wi < 5; wi++) {
+		for (int wi = 0; wi < 9; wi++) {
 			int n = wn[wi];
-			for (int sft = 1; sft < n; sft += (v_thorough || n == 129 || n == 255 ? 1 : 7)) {
+			for (int sft = 1; sft < n; sft += (n > 255 ? (sft == 1 ? 254 : sft < 257 ? 1 : n - 1 - sft > 0 ? n - 1 - sft : 1) : v_thorough || n == 129 || n == 255 ? 1 : 7)) {
 				if (!v_mine(unit++))
 					continue;
 				if (nfail > 20 || v_deadline_hit())
